@@ -100,13 +100,14 @@ Definition mismatch (c : ecase) : option string :=
   match chk "main" o (Some (k_obs c)) with Some s => Some s | None =>
   match chk "fuzzy_off" (with_opts o None (Some false) None false) (extra c "fuzzy_off") with Some s => Some s | None =>
   match chk "fuzzy_on" (with_opts o None (Some true) None false) (extra c "fuzzy_on") with Some s => Some s | None =>
+  match chk "fuzzy_after_replace" (with_opts o None (Some true) None false) (extra c "fuzzy_after_replace") with Some s => Some s | None =>
   match chk "nlp_off_big" (with_opts o (Some (big c)) (Some false) (Some false) false) (extra c "nlp_off_big") with Some s => Some s | None =>
   match chk "nlp_on_big" (with_opts o (Some (big c)) (Some false) (Some true) false) (extra c "nlp_on_big") with Some s => Some s | None =>
   match chk "boost_big" (with_opts o (Some (big c)) None None false) (extra c "boost_big") with Some s => Some s | None =>
   match chk "noboost_big" (with_opts o (Some (big c)) None None true) (extra c "noboost_big") with Some s => Some s | None =>
   match chk "cached_after_variants" o (extra c "cached_after_variants") with Some s => Some s | None =>
   chk "cached_after_refresh" o (extra c "cached_after_refresh")
-  end end end end end end end end.
+  end end end end end end end end end.
 
 (* which path answered, according to the model *)
 Definition path_of (c : ecase) : string :=
@@ -204,8 +205,8 @@ Fixpoint subseq_fold (p t : bytes) : bool :=
 Definition fuzzy_text (d : command) : bytes := (c_cmd d ++ [32%N] ++ c_desc d)%list.
 Definition ascii_only (s : bytes) : bool := forallb (fun b => N.ltb b 128) s.
 
-Definition c07_check (c : ecase) : option string :=
-  match extra c "fuzzy_off", extra c "fuzzy_on" with
+Definition c07_one (c : ecase) (run : string) : option string :=
+  match extra c "fuzzy_off", extra c run with
   | Some off, Some on =>
       match off with
       | _ :: _ => if results_eqb off on then None else Some "only_when_empty"
@@ -234,6 +235,10 @@ Definition c07_check (c : ecase) : option string :=
       end
   | _, _ => None
   end.
+
+(* the fallback's answer, asked directly and asked again after the database was replaced by a list of the same size *)
+Definition c07_check (c : ecase) : option string :=
+  first_some [ c07_one c "fuzzy_on"; tag "fuzzy_after_replace" (c07_one c "fuzzy_after_replace") ].
 
 (* ---------------------------------------------------------------- C06 C13 C20 (relational) *)
 
